@@ -132,6 +132,8 @@ def scalar_sort(S: Sorts, ty: Ty) -> z3.SortRef:
         return S.sort(ty.name)
     if ty.kind == "obj":
         return z3.IntSort()
+    if ty.kind == "set":
+        return z3.ArraySort(scalar_sort(S, ty.args[0]), z3.BoolSort())  # a set as a dict VALUE (dict of sets): its characteristic array
     raise TypeError("not a scalar type: %r" % (ty,))
 
 
